@@ -105,16 +105,16 @@ PostClause(e, b, accepted) ==
           THEN "C03:earlier_snapshot_changed"
      ELSE ""
 
-Verdict(c, keep) == /\ PrintT(<< "VERDICT", Traces[tid].id, c, l >>)
+Verdict(c, keep) == /\ PrintT(ToJson(<< "VERDICT", Traces[tid].id, c, l >>))
                     /\ done' = TRUE /\ UNCHANGED << tid, l >>
                     /\ IF keep THEN TRUE ELSE UNCHANGED lvars
 Continue == /\ l' = l + 1 /\ UNCHANGED tid
             /\ done' = (l + 1 > Len(Ev))
-            /\ (l + 1 > Len(Ev)) => PrintT(<< "VERDICT", Traces[tid].id, "ok", l >>)
+            /\ (l + 1 > Len(Ev)) => PrintT(ToJson(<< "VERDICT", Traces[tid].id, "ok", l >>))
 
 Drift(e, f) == LET predicted == IF f = "" THEN "ok" ELSE "rej"
                IN IF predicted # e.res \/ (e.res = "rej" /\ e.rule # "?" /\ e.rule # f)
-                  THEN PrintT(<< "DRIFT", Traces[tid].id, l, f, e.res, e.rule >>) ELSE TRUE
+                  THEN PrintT(ToJson(<< "DRIFT", Traces[tid].id, l, f, e.res, e.rule >>)) ELSE TRUE
 
 StepAdd(e) ==
   LET b == ToBlk(e.blk)
